@@ -290,7 +290,7 @@ def run(tier, seed):
     # ---------------------------------------------------------------- model correspondence
     # every mul/div/pow case is run twice: through the hand-written model (`UnitV.mul/div/pow`, what the laws are proved
     # about) and through the program regenerated from the live source (`c05.*`, proved equal to it in C05Paths.lean)
-    dup = [("c05." + ln, ("c05." + ex_[0],) + tuple(ex_[1:])) for ln, ex_ in zip(model_lines, model_expect) if ex_[0] in ("umul", "udiv", "upow")]
+    dup = [("c05." + ln, ("c05." + ex_[0],) + tuple(ex_[1:])) for ln, ex_ in zip(model_lines, model_expect) if ex_[0] in ("umul", "udiv", "upow", "ueq")]
     model_lines += [d[0] for d in dup]
     model_expect += [d[1] for d in dup]
     try:
@@ -300,7 +300,7 @@ def run(tier, seed):
         chk.disagree("driver", repr(e))
     for rep, (op, a, b, real) in zip(replies, model_expect):
         chk.count("model:" + op)
-        if op == "ueq":
+        if op in ("ueq", "c05.ueq"):
             want = "1" if (real[0] == "ok" and real[1]) else "0"
             if rep[0] != "ok" or rep[1] != want:
                 chk.disagree(op, f"{a} == {b}: model {rep} implementation {real}")
